@@ -482,6 +482,15 @@ def c01(ctx):
                 pf, ef = fields(pln), fields(emap[s])
                 if pf[4:] != ef[1:]:
                     ctx.S("eav_is_email after eav_setup(rfc=%d) does not apply mode %d's rules" % (m, m), op="P %d %d %d %s" % (m, t, 4094, hx(s)), input=repr(s), api=pln, direct=emap[s])
+    # the mode is the one CONFIRMED by eav_setup: writing eav.rfc afterwards without eav_setup changes nothing
+    probes = [b"a@b.com", "ящик@example.com".encode(), "user@почта.рф".encode(), b'"a\tb"@b.com', b'"a b"@b.com', b"user@xn---abc.com"]
+    scripts = []
+    for m1 in MODES:
+        for m2 in MODES:
+            if m1 != m2:
+                # both callbacks installed earlier, then mode m1 confirmed, then rfc := m2 without setup
+                scripts.append("i;t0;r%d;s;r%d;s;r%d;" % (m2, m1, m2) + ";".join("e" + hx(p) for p in probes) + ";f")
+    check_histories(ctx, "rfc-without-setup", scripts)
 RULES["C01"] = "distinct (mode, tld_check, address) triples that pass basic_email_check (not empty, has '@', non-empty halves, local part <= 64); exhaustive over a 12-class alphabet to length 4 (5 thorough), 18 local parts x 29 domains, local length 60-69 x 0-3 '@', random"
 
 
@@ -768,6 +777,7 @@ RULES["C15"] = "distinct (mode, tld, address) triples rejected by something othe
 
 def c16(ctx):
     strs = diag_corpus(ctx)
+    strs = list(dict.fromkeys(strs + [b"a@" + d for d in gen.literal_domains("quick", ctx.rng) if 0 not in d and d.startswith(b"[")]))
     spi = dict(zip(strs, ctx.spec(["sI %s" % hx(split_addr(s)[1] or b"") for s in strs])))
     for v in ("default", "extra"):
         for m in MODES:
@@ -1236,6 +1246,13 @@ def c11(ctx):
     for r, cl, sl in zip(tbl + tbl, c, sp):
         if cl.split(" ")[1] != sl.split(" ")[1]:
             ctx.S("a row of data/punycode.csv is not found with the class the generator documents", op="T %s" % hx(r[0]), impl=cl, csv=sl)
+    # no domain absent from the CSV is found: near misses and byte aliases of every row, straight into is_tld
+    labels = [l for l in dict.fromkeys(gen.tld_labels([r[0] for r in tbl], ctx.tier, ctx.rng)) if l and 0 not in l]
+    ct = ctx.K("is_tld", "default", ["T %s" % hx(l) for l in labels], nontrivial=lambda op, ln: True)
+    st = ctx.spec(["sT %s" % hx(l) for l in labels])
+    for l, cl, sl in zip(labels, ct, st):
+        if cl.split(" ")[1] != sl.split(" ")[1]:
+            ctx.S("is_tld answers differently from data/punycode.csv (a domain absent from the CSV is found, or a listed one is not)", op="T %s" % hx(l), label=repr(l), impl=cl, csv=sl)
     doms = open(os.path.join(d, "data/tld-domains.txt"), "rb").read().split(b"\n")
     doms = [x for x in doms if x]
     ce = ctx.K("tld-domains.txt", "default", ["E 6531 1 %s" % hx(b"a@" + x) for x in doms], nontrivial=lambda op, ln: True)
